@@ -5,6 +5,9 @@
 package vrt
 
 import (
+	"strings"
+	"go/format"
+	"path/filepath"
 	"reflect"
 	"bytes"
 	"time"
@@ -617,4 +620,69 @@ func Equal(a, b interface{}) bool {
 		return a == nil && b == nil
 	}
 	return deepEq(reflect.ValueOf(a), reflect.ValueOf(b))
+}
+
+// ---------------------------------------------------------------- file-system vocabulary (C19, C01)
+
+var fsDirs = map[int]string{}
+var fsCur int
+
+// FSSelect switches between independent scratch directories.
+func FSSelect(k int) {
+	fsCur = k
+	if _, ok := fsDirs[k]; !ok {
+		d, err := os.MkdirTemp("", "vrt-fs-")
+		if err != nil {
+			panic(err)
+		}
+		fsDirs[k] = d
+	}
+}
+
+func FSDir() string {
+	if _, ok := fsDirs[fsCur]; !ok {
+		FSSelect(fsCur)
+	}
+	return fsDirs[fsCur]
+}
+
+func FSSet(name string, exists bool, content string) {
+	p := filepath.Join(FSDir(), name)
+	if exists {
+		os.WriteFile(p, []byte(content), 0o644)
+	} else {
+		os.Remove(p)
+	}
+}
+
+func FSExists(name string) bool {
+	_, err := os.Stat(filepath.Join(FSDir(), name))
+	return err == nil
+}
+
+func FSContent(name string) string {
+	bs, _ := os.ReadFile(filepath.Join(FSDir(), name))
+	return string(bs)
+}
+
+// Blob: a long file content (1 MiB natively; longer than any file goag renders
+// for the specs the harnesses use).
+func Blob(name string) string { return strings.Repeat("x", 1<<20) }
+
+func FSCleanup() {
+	for _, d := range fsDirs {
+		os.RemoveAll(d)
+	}
+	fsDirs = map[int]string{}
+}
+
+// SetHasComponents / SetRenderParses steer the symbolic stubs; natively the
+// harness picks real inputs with the same meaning.
+func SetHasComponents(b bool) {}
+func SetRenderParses(b bool)  {}
+
+// IsFormatted: is s gofmt-stable Go source?
+func IsFormatted(s string) bool {
+	out, err := format.Source([]byte(s))
+	return err == nil && string(out) == s
 }
